@@ -8,4 +8,5 @@ pub mod reclog;
 pub mod emfh;
 pub mod emfgen;
 pub mod iofault;
+pub mod bq;
 pub mod props;
